@@ -36,6 +36,13 @@ def run(ctx):
                      timeout=1800)
     ctx.add_family(agg)
     strict_compile(ctx, badp)
+    # METAL: a filler replaced by a later one of its slot, default content of a filled slot, a filler nobody asks for, a
+    # macro nobody uses -- never rendered (non-strict renders), always compiled (strict rejects the template that holds it)
+    mbad = F.c19_bad_metal(ctx.tier, rnd)
+    agg = run_family("C19bad_metal", mbad, NAMES + ["g", "macroname"], dev=dev, invariants=[], perms=(0,), options={"strict": False},
+                     timeout=1800)
+    ctx.add_family(agg)
+    strict_each_source(ctx, mbad)
     empty_and_crlf(ctx, badp)
     file_history(ctx)
     for f in ctx.known():
@@ -46,6 +53,39 @@ def run(ctx):
                 "non-default content, replaced element, unused fallback, later pipe alternative, and two plants; "
                 "non-trivial = at least one call evaluated")
     ctx.assumptions += ["invalid expressions are the four texts ']['  '1 +'  '(a'  'a b'"]
+
+
+def strict_each_source(ctx, progs):
+    """every template of the program (entry template, libraries) that holds a planted expression is rejected by strict
+    compilation with the token at the plant; the others compile"""
+    sys.path.insert(0, REPO_SRC)
+    from chameleon import PageTemplate
+    from chameleon.exc import ExpressionError
+    n = 0
+    for p in progs:
+        c = C.concretize(p, 0)
+        for k, src in enumerate(c.srcs):
+            planted = [info for info in c.sites.values() if info.get("tmpl", 0) == k and any(b in info["text"] for b in C.BAD_EXPRS)]
+            n += 1
+            try:
+                PageTemplate(src, strict=True)
+                res = None
+            except ExpressionError as e:
+                res = e.token
+            except Exception as e:   # noqa
+                ctx.violation("strict: construction raised %s, not ExpressionError (%s)\n  template: %r" % (type(e).__name__, p["fam"], src),
+                              dict(kind="strict", source=src))
+                continue
+            if planted and res is None:
+                ctx.violation("strict: a template with an invalid expression in a part that is never rendered (%s) was accepted\n"
+                              "  template: %r" % (p["fam"], src), dict(kind="strict", source=src))
+            elif not planted and res is not None:
+                ctx.violation("strict: a template without invalid expression (%s) was rejected at %r\n  template: %r" % (p["fam"], str(res), src),
+                              dict(kind="strict", source=src))
+            elif planted and not any(i["offset"] <= res.pos <= i["offset"] + len(i.get("encoded") or i["text"]) for i in planted):
+                ctx.violation("strict: ExpressionError token %r at offset %s is not the planted expression (%s)\n  template: %r" % (
+                    str(res), res.pos, p["fam"], src), dict(kind="strict", source=src))
+    ctx.replays += n
 
 
 def strict_compile(ctx, progs):
